@@ -82,6 +82,22 @@ def oracle_stepwise(res, case, sk, ops, tmp, keypath):
                 if want is not None and sf["field"]["k"] != "challenge" and not c05.same(got, want):
                     res.violate("C01:readback", "reading a field after an accepted assignment does not yield its normalised form",
                                 dict(case, at=n, op=op, got=F.enc_val(got), want=F.enc_val(want)))
+            if ok and sf is not None and sf["s"] == "leaf" and sf["field"].get("custom") and sf["field"]["k"] in ("string", "int", "float"):
+                # a validator of the application's own: what is stored is what it returned, whatever that is (0, "", False included)
+                owner = cfg
+                parts = op["key"].split(".")
+                for p in parts[:-1]:
+                    owner = owner._data[p]
+                try:
+                    base = F.build_field(dict(sf["field"], custom=None), tmp)
+                    want = F.CATALOGUE[sf["field"]["custom"]](owner, base.validate(owner, copy.deepcopy(a["py"])))
+                    got = cfg[op["key"]]
+                    if not c05.same(got, want):
+                        res.violate("C01:custom-result-not-stored", "the value stored after an accepted assignment is not what the field's own validator returned",
+                                    dict(case, at=n, op=op, got=F.enc_val(got), want=F.enc_val(want)))
+                except Exception:  # noqa
+                    pass
+            if ok and sf is not None and sf["s"] == "leaf" and not c05.has_custom(sf["field"]):
                 after = C.dump_cfg(cfg, C.Ids())
                 if not same_except(before, after, parts):
                     res.violate("C01:frame", "an accepted assignment changed another field", dict(case, at=n, op=op))
@@ -115,10 +131,11 @@ def proxy_stream(ctx, res, n):
         item = F.gen_field(rng, 0, scalar_only=True)
         if item["k"] in ("any", "challenge", "secure", "filename") or c05.has_custom(item) or c05.finding_tag(item, None):
             continue
-        s = cc.Schema()
+        # (half of the schemas map their fields to environment variables, none of which is set)
+        s = cc.Schema(env="CINCO_T_C01_UNSET") if i % 2 else cc.Schema()
         try:
-            s.lst = cc.ListField(F.build_field(item, tmp))
-            s.dct = cc.DictField(cc.StringField(), F.build_field(item, tmp))
+            s.lst = cc.ListField(F.build_field(item, tmp), default=lambda: [])
+            s.dct = cc.DictField(cc.StringField(), F.build_field(item, tmp), default=lambda: {})
             # siblings of the same kind without the constraints: their proxies may hold what this field must reject or normalise
             s.loose = cc.ListField(F.build_field({"k": item["k"], "required": False}, tmp))
             s.loosed = cc.DictField(cc.StringField(), F.build_field({"k": item["k"], "required": False}, tmp))
@@ -161,7 +178,11 @@ def proxy_stream(ctx, res, n):
                     ("assign-other-proxy", lambda: setattr(cfg, "lst", other_list(vals))),
                     ("add-other-proxy", lambda: setattr(cfg, "lst", lst + other_list(vals))),
                     ("dict-update-other-proxy", lambda: dct.update(other_dict(vals))), ("dict-ior-other-proxy", lambda: dct.__ior__(other_dict(vals))),
-                    ("dict-assign-other-proxy", lambda: setattr(cfg, "dct", other_dict(vals)))]
+                    ("dict-assign-other-proxy", lambda: setattr(cfg, "dct", other_dict(vals))),
+                    ("dict-update-selfcopy-kw", lambda: dct.update(dct.copy(), kw1=vals[0], kw2=vals[1])),
+                    ("dict-update-selfcopy-kw", lambda: dct.update(dct.copy(), **{"kw3": vals[2]})),
+                    ("reset-then-append", lambda: (cc.reset_value(cfg, "lst"), cfg.lst.append(vals[0]), cfg.lst.extend(vals))),
+                    ("reset-then-set", lambda: (cc.reset_value(cfg, "dct"), cfg.dct.__setitem__("r", vals[0]), cfg.dct.update(r2=vals[1])))]
             name, fn = rng.choice(muts)
             try:
                 fn()
